@@ -253,6 +253,13 @@ package server
 // the next upload URL handed to Run / the next part is the one parsed from this answer
 //@   assert-at send nextURL #1 : sent == nextURL
 //@   assert-at send nextURL #2 : sent == nextURL
+// what the registry is told about the part: its length and (PATCH) its byte range in the blob; the request
+// carries the headers built here and the tee of the part's section reader
+//@   assert-at call strconv.FormatInt #1 : arg0 == part.Size && arg1 == 10
+//@   assert-at call fmt.Sprintf #1 : arg0 == "%d-%d" && len(arg1) == 2 && slog.AnyValue(arg1[0]) == slog.AnyValue(part.Offset)
+//@   assert-at call fmt.Sprintf #1 : 0 <= part.Offset && 0 <= part.Size && part.Offset < (1 << 61) && part.Size < (1 << 61) ==> unbox(arg1[1], "int64") == part.Offset + part.Size - 1
+//@   assert-at call makeRequest #1 : arg3 == headers
+//@   assert-at call io.TeeReader #1 : slog.AnyValue(arg0) == slog.AnyValue(sr)
 
 // ---- acquire / release (reference count of Wait): bodies verified, frame as trusted before
 //@ extern func sync/atomic.(*Int32).Add
